@@ -50,6 +50,22 @@ def Rel.ofName? : String → Option Rel
   | "ge" => some .ge | "gt" => some .gt | "le" => some .le | "lt" => some .lt | "eq" => some .eq | "ne" => some .ne
   | _ => none
 
+/-- `disc` extended to infinite data / thresholds (the extended reals): an infinite value is a valid, comparable
+    value, so the order relations are decided by the order of the extended reals — a finite tolerance brings no
+    other value near an infinity, and a value always counts as equal to itself (`inf >= inf` holds, `inf > inf`
+    does not).  Different values are unequal (`inf == 1` is 0).  Only `==` / `!=` between two EQUAL infinities
+    stays outside the property's domain (`none`; notes/C08.md N-C08-1). -/
+def discX (r : Rel) (x c : Fl) (t : Rat) : Option Fl :=
+  match disc r x c t with
+  | some v => some v
+  | none =>
+    if Fl.beq x c then
+      match r with
+      | .ge | .le => some (Fl.fin 1)
+      | .gt | .lt => some (Fl.fin 0)
+      | .eq | .ne => none
+    else some (Fl.ofBool (r.op.apply x c))
+
 /-- event of a threshold operator: `op x thr` for every supplied threshold, NaN for missing data -/
 def event (o : PyOp) (thr x : Fl) : Fl := if x.isNan then .nan else Fl.ofBool (o.apply x thr)
 
